@@ -262,6 +262,17 @@ def gen_stream(rnd, limit, big=False):
         for j in range(nl):
             sz = rnd.choice([0, 1, 5, 30, limit - 1, limit, limit + 1, limit * 3] if rnd.random() < 0.35 else [0, 1, 2, 5, 17, 40])
             sync = rnd.random() < 0.5
+            edge = None
+            if not refused and rnd.random() < 0.12:
+                # the command is at or just under the limit after this literal: whether it is over is decided by the text after it
+                edge = rnd.choice([0, 0, 1, 2, 5])
+                sz = limit - edge - size - 2 - len(b" {%d%s}" % (limit, b"" if sync else b"+"))
+                for _ in range(3):
+                    sz = limit - edge - size - 2 - len(b" {%d%s}" % (max(sz, 0), b"" if sync else b"+"))
+                if sz < 0:
+                    edge, sz = None, 1
+                else:
+                    classes.add("at-limit-after-literal")
             body_kind = rnd.choice(["text", "cmdlike", "crlf", "brace", "brace-end"])
             if body_kind == "text":
                 lit = b"x" * sz
@@ -298,6 +309,10 @@ def gen_stream(rnd, limit, big=False):
                 refused = True
                 classes.add("over-limit")
             tail = rnd.choice([b" more", b" (x y)", b"", b""])
+            if edge is not None:
+                tail = rnd.choice([b"", b" ", b" m", b" more", b" (x y) \"version\" \"1.0\")"])
+                if size + len(tail) > limit:
+                    classes.add("over-limit-by-text-after-last-literal")
             out += tail
             size += len(tail)
         cmds.append(out + b"\r\n")
